@@ -4,7 +4,7 @@ as an expression over the ENTRY values of the fields and the parameters.
 Unlike `sym.Sym` (which expands single-assignment temporaries regardless of program point), this walks the blocks in
 reverse post-order and threads the memory state, so a read of `self.h1` after `self.h1 = …` sees the new value.
 Only acyclic CFGs are accepted (raises ValueError otherwise)."""
-from .sym import strip, canon, deref, ref, field, WITH_OVF, UNCHK
+from .sym import strip, canon, deref, ref, field, WITH_OVF, UNCHK, _FROM_INT
 from .mir import callee_of, const_val
 
 
@@ -60,6 +60,9 @@ class Forward:
             if t["t"] == "call":
                 args = tuple(self.operand(env, a) for a in t["args"])
                 e = ("call", callee_of(t), args, b)
+                m = _FROM_INT.match(callee_of(t))
+                if m and len(args) == 1:
+                    e = ("cast", args[0], m.group(2))
                 self.events.append((b, "call", callee_of(t), args))
                 # a `&mut` argument into memory we track: the callee may write it -> havoc that path
                 for a in t["args"]:
